@@ -88,6 +88,21 @@ pub fn model_case(c: &Value, tr: &mut Trace, tmpdir: &str) {
     if g("shdrs") == "pastend" { elfgen::set_field(&mut b, "e_shoff", len - 8); }
     if g("phNote") == "range_bad" { elfgen::set_field(&mut b, "ph1.p_offset", len - 4); }
     if g("phNote") == "other_note" { elfgen::set_field(&mut b, "phnote.type", 1); }
+    if g("phNote") == "late_second" {
+        // two note segments, as linkers emit them: the first 8-aligned with a note that is not the build id; the second 4-aligned,
+        // holding a vendor note whose padded size is 4 mod 8 and, after it, the build id (the third program header is reused for it)
+        let prop = elfgen::note(&[0u8; 16], b"GNU", 5);
+        let at = b.fields["phnote.namesz"].0;
+        b.bytes[at..at + prop.len()].copy_from_slice(&prop);
+        for (f, v) in [("ph1.p_filesz", prop.len() as u64), ("ph1.p_memsz", prop.len() as u64), ("ph1.p_align", 8)] { elfgen::set_field(&mut b, f, v); }
+        let mut second = elfgen::note(&[1, 2, 3, 4], b"FDO", 0xcafe_1a7e);
+        second.extend_from_slice(&elfgen::note(&spec.id_ph, b"GNU", 3));
+        let off = b.bytes.len() as u64;
+        b.bytes.extend_from_slice(&second);
+        for (f, v) in [("ph2.p_type", 4), ("ph2.p_offset", off), ("ph2.p_vaddr", off), ("ph2.p_paddr", off), ("ph2.p_filesz", second.len() as u64), ("ph2.p_memsz", second.len() as u64), ("ph2.p_align", 4)] {
+            elfgen::set_field(&mut b, f, v);
+        }
+    }
     if g("secNote") == "range_bad" { elfgen::set_field(&mut b, "sh2.sh_offset", len - 4); }
     if g("strtab") == "bad_index" { elfgen::set_field(&mut b, "e_shstrndx", 77); }
     if g("strtab") == "wrong_type" { elfgen::set_field(&mut b, "sh3.sh_type", 1); }
